@@ -156,7 +156,7 @@ def payload(ctx, F, cfg, spec, P="C17"):
                 """(value term, its type) handed to the encoder; a borrowed *view* enum whose hand-written Serialize forwards every
                 variant's payload to the same serializer (an untagged enum) stands for the payload it wraps"""
                 t = v.enc.args[0]
-                ty = erase_lt((v.enc.node.get("targs") or [""])[0])
+                ty = erase_lt(m.sym.type_arg(v.enc, (v.enc.node.get("targs") or [""])[0]) or "")
                 if t[0] == "ctor" and len(t[2]) == 1:
                     en, _, var = t[1].rpartition("::")
                     adt = F.adt(en)
